@@ -107,6 +107,8 @@ pub enum E {
     /// inner`n
     SliceShort(Box<E>, Box<E>),
     Call(String, Vec<E>),
+    /// { e1, e2, ... }: value of the last one
+    Block(Vec<E>),
 }
 
 #[derive(Clone, Debug, PartialEq)]
@@ -160,6 +162,8 @@ pub enum EvalErr {
     SliceRange,
     Negative,
     UnknownVar(String),
+    /// assert(false): a *constraint* failure (discards a candidate rule), not a hard error
+    AssertFailed,
     Other(&'static str),
     /// the statement does not fix the result here; the case must not be asserted
     Unspecified(&'static str),
@@ -297,6 +301,14 @@ fn as_int(v: &V, pattern_only: bool) -> Result<Option<(BigInt, Option<usize>)>, 
 
 pub struct Env<'a> {
     pub vars: &'a HashMap<String, V>,
+    /// consulted when `vars` has no entry (symbol resolution at the point of use)
+    pub lookup: Option<&'a dyn Fn(&str) -> Result<V, EvalErr>>,
+}
+
+impl<'a> Env<'a> {
+    pub fn of(vars: &'a HashMap<String, V>) -> Env<'a> {
+        Env { vars, lookup: None }
+    }
 }
 
 pub fn to_usize(v: &V) -> Result<usize, EvalErr> {
@@ -317,7 +329,20 @@ pub fn eval(e: &E, env: &Env) -> R {
         E::Lit { v, size, .. } => Ok(V::Int { v: v.clone(), size: *size }),
         E::Bool(b) => Ok(V::Bool(*b)),
         E::Str { chars, .. } => Ok(V::Str { s: chars.clone(), enc: Enc::Utf8 }),
-        E::Var(n) => env.vars.get(n).cloned().ok_or_else(|| EvalErr::UnknownVar(n.clone())),
+        E::Var(n) => match env.vars.get(n) {
+            Some(v) => Ok(v.clone()),
+            None => match env.lookup {
+                Some(f) => f(n),
+                None => Err(EvalErr::UnknownVar(n.clone())),
+            },
+        },
+        E::Block(es) => {
+            let mut last = V::Void;
+            for e in es {
+                last = eval(e, env)?;
+            }
+            Ok(last)
+        }
         E::Un(op, a) => {
             let a = eval(a, env)?;
             match (op, a) {
@@ -484,7 +509,7 @@ pub fn call_builtin(name: &str, vals: &[V]) -> R {
             }
             match &vals[0] {
                 V::Bool(true) => Ok(V::Void),
-                V::Bool(false) => Err(EvalErr::Other("assertion failed")),
+                V::Bool(false) => Err(EvalErr::AssertFailed),
                 _ => Err(EvalErr::Type("assert operand")),
             }
         }
@@ -526,6 +551,7 @@ pub fn level_of(e: &E) -> u8 {
         E::Slice(..) => LEVEL_SLICE,
         E::SliceShort(..) => LEVEL_SLICESHORT,
         E::Call(..) => LEVEL_CALL,
+        E::Block(..) => LEVEL_LEAF,
     }
 }
 
@@ -575,6 +601,7 @@ pub fn print(e: &E, full: bool) -> String {
                 .collect();
             format!("{}({})", name, args.join(", "))
         }
+        E::Block(es) => format!("{{ {} }}", es.iter().map(|e| print(e, full)).collect::<Vec<_>>().join(", ")),
     }
 }
 
@@ -586,7 +613,7 @@ pub fn depth(e: &E) -> usize {
         E::Tern(a, b, c) => 1 + depth(a).max(depth(b)).max(depth(c)),
         E::Slice(a, b, c) => 1 + depth(a).max(depth(b)).max(depth(c)),
         E::SliceShort(a, b) => 1 + depth(a).max(depth(b)),
-        E::Call(_, args) => 1 + args.iter().map(depth).max().unwrap_or(0),
+        E::Call(_, args) | E::Block(args) => 1 + args.iter().map(depth).max().unwrap_or(0),
     }
 }
 
@@ -638,6 +665,11 @@ pub fn op_classes(e: &E, out: &mut std::collections::BTreeSet<&'static str>) {
                 op_classes(a, out);
             }
         }
+        E::Block(args) => {
+            for a in args {
+                op_classes(a, out);
+            }
+        }
     }
 }
 
@@ -676,7 +708,7 @@ pub fn unparenthesised_pairs(e: &E, out: &mut Vec<(u8, u8)>) {
             unparenthesised_pairs(a, out);
             unparenthesised_pairs(b, out);
         }
-        E::Call(_, args) => {
+        E::Call(_, args) | E::Block(args) => {
             for a in args {
                 unparenthesised_pairs(a, out);
             }
@@ -705,6 +737,6 @@ pub fn has_wide_or_negative_bitop(e: &E, env: &Env) -> bool {
         E::Tern(a, b, c) => has_wide_or_negative_bitop(a, env) || has_wide_or_negative_bitop(b, env) || has_wide_or_negative_bitop(c, env),
         E::Slice(a, b, c) => neg(a, env) || has_wide_or_negative_bitop(a, env) || has_wide_or_negative_bitop(b, env) || has_wide_or_negative_bitop(c, env),
         E::SliceShort(a, b) => neg(a, env) || has_wide_or_negative_bitop(a, env) || has_wide_or_negative_bitop(b, env),
-        E::Call(_, args) => args.iter().any(|a| has_wide_or_negative_bitop(a, env)),
+        E::Call(_, args) | E::Block(args) => args.iter().any(|a| has_wide_or_negative_bitop(a, env)),
     }
 }
